@@ -23,8 +23,17 @@
 static unsigned char *sent;             /* NARG blocks of 64 bytes at a low fixed address */
 static unsigned char sent0[NARG * 64];
 static void *A[NARG];
-static sigjmp_buf jb; static volatile int armed; static int got_sig;
-static void on_sig(int s) { if (!armed) _exit(3); armed = 0; got_sig = s; siglongjmp(jb, 1); }
+static sigjmp_buf jb; static volatile int armed; static int got_sig; static void *fault_addr;
+static void on_sig(int s, siginfo_t *si, void *u) { (void)u; if (!armed) _exit(3); armed = 0; got_sig = s; fault_addr = si ? si->si_addr : NULL; siglongjmp(jb, 1); }
+/* the format itself is an operand: it is handed over flush against an unmapped page, after its terminator (placement 0)
+ * or before its first element (placement 1), so that a scan that leaves [start, terminator] faults */
+static unsigned char *farea; static const char *g_prop = "C09";
+#define FPAGES 8
+static const void *place_fmt(const void *f, size_t bytes, int placement) {
+    unsigned char *lo = farea + 4096, *hi = farea + 4096 * (FPAGES - 1);
+    unsigned char *at = placement ? lo : hi - bytes;
+    memset(lo, 'Q', hi - lo); memcpy(at, f, bytes); return at;
+}
 static int h_n; static void handler(const char *m, void *p, int e) { (void)m; (void)p; (void)e; h_n++; }
 
 /* ---- entry points */
@@ -147,10 +156,20 @@ static void one(int wide, int ep, const char *fmt) {
     char hx[200]; hx[0] = 0; for (int i = npad; fmt[i]; i++) sprintf(hx + 2 * (i - npad), "%02x", (unsigned char)fmt[i]); if (!fmt[npad]) strcpy(hx, "-");
     char cs[260]; snprintf(cs, sizeof cs, "%s %s pad%zu:%s", wide ? "wide" : "narrow", (wide ? EPW : EPN)[ep], npad, hx);
     const char *epn = (wide ? EPW : EPN)[ep];
-    h_n = 0; errno = 0; int r = 0, crashed = 0; n_calls++;
+    size_t fbytes = wide ? (wcslen((const wchar_t *)fp) + 1) * sizeof(wchar_t) : strlen(fmt) + 1;
+    int c02 = strcmp(g_prop, "C09") != 0;
+    for (int placement = 0; placement < (c02 ? 2 : 1); placement++) {
+    fp = place_fmt(wide ? (const void *)wf : (const void *)fmt, fbytes, placement);
+    h_n = 0; errno = 0; int r = 0, crashed = 0; n_calls++; fault_addr = NULL;
     if (ep == 12 || ep == 13) { if (wide) { rewind(win2); stdin = win2; } else { if (stdin) fclose(stdin); stdin = fmemopen((void *)"7 7 7 7", 7, "r"); } }
     if (sigsetjmp(jb, 1) == 0) { armed = 1; r = call(ep, wide, fp); armed = 0; } else crashed = 1;
     char b[64];
+    if (c02 && crashed && got_sig == SIGSEGV && fault_addr) {
+        unsigned char *a = fault_addr;
+        if (a >= farea && a < farea + 4096) { char sg[200]; snprintf(sg, sizeof sg, "C02|%s|format-read-before-its-start|%s", epn, placement ? "start-at-page-start" : "end-at-page-end"); n_viol++; int k = 0; for (; k < nsig; k++) if (!strcmp(sigs[k], sg)) { sigcnt[k]++; break; } if (k == nsig && nsig < 128) { strcpy(sigs[nsig], sg); strncpy(sigcase[nsig], cs, 259); sigcnt[nsig++] = 1; } if (c02) continue; }
+        if (a >= farea + 4096 * (FPAGES - 1) && a < farea + 4096 * FPAGES) { char sg[200]; snprintf(sg, sizeof sg, "C02|%s|format-read-past-its-terminator|%s", epn, p.valid ? "complete-format" : "format-ends-inside-a-directive"); n_viol++; int k = 0; for (; k < nsig; k++) if (!strcmp(sigs[k], sg)) { sigcnt[k]++; break; } if (k == nsig && nsig < 128) { strcpy(sigs[nsig], sg); strncpy(sigcase[nsig], cs, 259); sigcnt[nsig++] = 1; } if (c02) continue; }
+    }
+    if (c02) continue;
     int changed_any = memcmp(sent, sent0, sizeof sent0) != 0;
     if (verbose) { FILE *so = stdout; stdout = stderr; printf("format \"%.40s%s\" entry %s: ret=%d handler=%d crashed=%d(sig %d) has_n=%d valid=%d sentinel_changed=%d\n", fmt + (npad ? npad : 0), npad ? " (after a long literal prefix)" : "", epn, r, h_n, crashed, got_sig, p.has_n, p.valid, changed_any);
         for (int i = 0; i < NARG; i++) if (memcmp(sent + 64 * i, sent0 + 64 * i, 64)) { printf("  slot %d (kind %d) changed:", i, p.kind[i]); for (int k = 0; k < 12; k++) printf(" %02x", sent[64 * i + k]); printf("\n"); } stdout = so; }
@@ -168,6 +187,7 @@ static void one(int wide, int ep, const char *fmt) {
     if (p.has_n && p.valid) {
         if (h_n == 0 && r >= 0) { report(epn, "n-format-not-rejected", ncls(fmt, b), cs); return; }
         n_rejected++;
+    }
     }
 }
 
@@ -188,6 +208,9 @@ int main(int argc, char **argv) {
     void *(*ss)(void *) = dlsym(L, "set_str_constraint_handler_s"), *(*sm)(void *) = dlsym(L, "set_mem_constraint_handler_s");
     ss((void *)handler); sm((void *)handler);
     /* sentinel blocks at a low fixed address: a small int for %d/'*', a valid (wide) string for %s, a store target for %n */
+    if (getenv("C09_PROP")) g_prop = getenv("C09_PROP");
+    farea = mmap(NULL, 4096 * FPAGES, PROT_READ | PROT_WRITE, MAP_PRIVATE | MAP_ANONYMOUS, -1, 0); if (farea == MAP_FAILED) return 2;
+    mprotect(farea, 4096, PROT_NONE); mprotect(farea + 4096 * (FPAGES - 1), 4096, PROT_NONE);
     sent = mmap((void *)0x20000, 4096, PROT_READ | PROT_WRITE, MAP_PRIVATE | MAP_ANONYMOUS | MAP_FIXED, -1, 0);
     if (sent == MAP_FAILED) { perror("mmap low"); return 2; }
     for (int i = 0; i < NARG; i++) { unsigned char *b = sent0 + 64 * i; memset(b, 0xA5, 64); memset(b, 0, 8); b[0] = 'a' + i; A[i] = sent + 64 * i; }
@@ -203,7 +226,7 @@ int main(int argc, char **argv) {
     } else {
         sink = open_memstream(&sink_mem, &sink_len); stdout = open_memstream(&sink_mem, &sink_len);
     }
-    struct sigaction sa; memset(&sa, 0, sizeof sa); sa.sa_handler = on_sig; sa.sa_flags = SA_NODEFER; sigaction(SIGSEGV, &sa, NULL); sigaction(SIGABRT, &sa, NULL); sigaction(SIGBUS, &sa, NULL); sigaction(SIGFPE, &sa, NULL);
+    struct sigaction sa; memset(&sa, 0, sizeof sa); sa.sa_sigaction = on_sig; sa.sa_flags = SA_NODEFER | SA_SIGINFO; sigaction(SIGSEGV, &sa, NULL); sigaction(SIGABRT, &sa, NULL); sigaction(SIGBUS, &sa, NULL); sigaction(SIGFPE, &sa, NULL);
     if (replay) {
         int ep = -1; for (int i = 0; i < NEP; i++) if (!strcmp((wide ? EPW : EPN)[i], argv[3])) ep = i;
         static char fmt[5200]; int n = 0; const char *enc = argv[4];
